@@ -20,10 +20,16 @@ import (
 
 type specResult struct {
 	judged bool
-	ran    map[uint64]bool
-	in     map[uint64]*gg.Val
-	endRan bool
-	endIn  *gg.Val
+	// nilMerge: some fan-in of two or more values contains a nil value (typed.go: with interface-typed nodes that
+	// nil is untyped and mergeValues cannot take its type)
+	nilMerge bool
+	// zeroMapped: a node (or END) with field mappings is triggered without data: the mapping converter is handed the zero
+	// value of the consumer's input type, which it can only read when that type is map[string]any (typed.go)
+	zeroMapped bool
+	ran        map[uint64]bool
+	in         map[uint64]*gg.Val
+	endRan     bool
+	endIn      *gg.Val
 }
 
 func specDAG(c *gg.Case) specResult {
@@ -115,6 +121,11 @@ func specDAG(c *gg.Case) specResult {
 		case 1:
 			in = vals[0]
 		default:
+			for _, v := range vals {
+				if v.Kind == "nil" {
+					res.nilMerge = true
+				}
+			}
 			m, ok := mergeVals(vals)
 			if !ok {
 				return res
@@ -122,6 +133,9 @@ func specDAG(c *gg.Case) specResult {
 			in = m
 		}
 		if hasMapping(g, t) && in.Kind == "nil" {
+			if len(vals) == 0 {
+				res.zeroMapped = true
+			}
 			in = gg.MapOf()
 		}
 		if t == gg.END {
